@@ -14,7 +14,7 @@ import json
 import os
 import re
 
-from lib import evidence, goenv, tlc, tracecheck
+from lib import evidence, findings, goenv, tlc, tracecheck
 from lib.common import HarnessCrash, MachineryError, classify_mismatches, log, save_replay
 
 USAGE_KEYS = ("sIn", "sOut", "cIn", "cOut", "fd", "mem", "tsIn", "tsOut", "tcIn", "tcOut", "tfd", "tmem", "other")
@@ -111,16 +111,21 @@ def class_key(reset, evs):
     # an inbound connection whose upgrade COMPLETED (stage muxed), that was never handed out although
     # somebody was accepting, whose raw connection was closed BEFORE the listener / swarm began to close
     # (it died in the queue), and whose scope is all that is left
-    inb = {"upgrader": ("l1", "l"), "tcp": ("l1", "l"), "host": ("cb", "b")}.get(fam)
-    if inb and acceptor and pj.get("n", 1) in (0, 1):
-        o, rm = inb
-        if set(probs) == {"usage:%s:%s" % (rm, k) for k in ("cIn", "fd", "other")} and stage.get(o) == "muxed" \
-                and not any(e["ev"] == "live" and e["o"] == o for e in evs):
+    rm = {"upgrader": "l", "tcp": "l", "host": "b"}.get(fam)
+    if rm and acceptor and set(probs) == {"usage:%s:%s" % (rm, k) for k in ("cIn", "fd", "other")}:
+        closing = [i for i, e in enumerate(evs) if e["ev"] == "lclose_call" or (e["ev"] == "swarm_closed" and e.get("rm") == rm)
+                   or (e["ev"] == "note" and e.get("what") == "host_close_race")]
+        inbound = [e["o"] for e in evs if e["ev"] == "begin" and e.get("rm") == rm and e.get("kind") == "conn" and e.get("dir") == "in"]
+        lost = []
+        for o in inbound:
             died = [i for i, e in enumerate(evs) if e["ev"] == "raw_close" and e["o"] == o]
-            closing = [i for i, e in enumerate(evs) if e["ev"] == "lclose_call" or (e["ev"] == "swarm_closed" and e.get("rm") == rm)
-                       or (e["ev"] == "note" and e.get("what") == "host_close_race")]
-            if died and (not closing or died[0] < closing[0]):
-                return "conn-scope-leak:accept-skips-closed-queued-conn", probs
+            if stage.get(o) == "muxed" and not any(e["ev"] == "live" and e["o"] == o for e in evs) \
+                    and died and (not closing or died[0] < closing[0]):
+                lost.append(o)
+        final = [e for e in evs if e["ev"] == "audit" and e.get("rm") == rm]
+        # every connection scope left over is accounted for by exactly such a connection
+        if lost and final and final[-1].get("cIn") == len(lost) and final[-1].get("fd") == len(lost):
+            return "conn-scope-leak:accept-skips-closed-queued-conn", probs
     what = "+".join(re.sub(r"\d+$", "", p) for p in probs) or "ledger-rejected"
     st = reset.get("stage") or "-"
     return "%s:%s:%s@%s:%s" % (fam, what[:80], kind, st, reset.get("side", "")), probs
@@ -164,20 +169,36 @@ def run(ctx):
         mc = fut.result()
     acc = sum(1 for v in verdicts if v.accepted)
     rej = [v for v in verdicts if not v.accepted]
-    classes = {}
+    classes, first, inconclusive = {}, {}, []
     for v in rej:
         reset, evs = resets[v.name]
         cls, probs = class_key(reset, evs)
         classes[cls] = classes.get(cls, 0) + 1
-        if classes[cls] > 2:
-            continue
-        path = save_replay(ctx, "ledger-seed%d-%s.json" % (ctx.seed, v.name), {
-            "verdict": v.as_dict(), "case": reset, "left_over": probs, "events": evs,
-            "how_to_rerun": "VERIF_C04_ONLY='%s|%s' ./tools_gotest.sh <pkg> <test> (upgrader family)" % (
-                reset.get("cfg", ""), json.dumps(reset.get("p", {})))})
-        ctx.violations.append({"cls": cls, "replay": path, "what": "%s: ledger %s (%s %s) is not a behaviour of C04_Obs at event %d/%d %s; left over: %s" % (
-            cls, v.name, reset.get("cfg", ""), reset.get("plan", ""), v.matched, v.length,
-            json.dumps(v.next_event)[:160], ", ".join(probs) or "-")})
+        first.setdefault(cls, []).append((v, reset, evs, probs))
+    fams = {n: (pkg, rx) for n, pkg, rx in FAMILIES}
+    for cls, items in first.items():
+        known = findings.match(ctx.pid, cls) is not None
+        for v, reset, evs, probs in items[:2]:
+            rep = "listed in known_findings.d (reproduced by construction in every run)"
+            if not known:
+                # a violation is reported only after the very case has been executed again and rejected again
+                rep = reproduce(ctx, cls, reset, fams[reset["family"]], env)
+                if rep is None:
+                    inconclusive.append("%s (%s %s)" % (cls, reset.get("cfg", ""), reset.get("plan", "")))
+                    ctx.notes.append("INCONCLUSIVE: %s rejected once and not again in 6 repetitions" % inconclusive[-1])
+                    break
+            path = save_replay(ctx, "ledger-seed%d-%s.json" % (ctx.seed, v.name), {
+                "verdict": v.as_dict(), "case": reset, "class": cls, "left_over": probs, "events": evs, "reproduction": rep,
+                "how_to_rerun": "VERIF_C04_ONLY='%s' VERIF_C04_REPEAT=6 ./tools_gotest.sh %s '%s' -v" % (
+                    only_arg(reset), fams[reset["family"]][0], fams[reset["family"]][1])})
+            ctx.violations.append({"cls": cls, "replay": path, "what": "%s: ledger %s (%s %s) is not a behaviour of C04_Obs at event %d/%d %s; left over: %s" % (
+                cls, v.name, reset.get("cfg", ""), reset.get("plan", ""), v.matched, v.length,
+                json.dumps(v.next_event)[:160], ", ".join(probs) or "-")})
+            if not known:
+                break
+    if inconclusive and not any(findings.match(ctx.pid, v["cls"]) is None for v in ctx.violations):
+        # nothing but unreproducible rejections: exit 2, never a verdict
+        raise MachineryError("rejected once and not reproduced: %s" % inconclusive[:4])
     # TLC and the python fold must agree on which ledgers are clean (the fold only names classes)
     for v in verdicts:
         if v.accepted:
@@ -189,13 +210,16 @@ def run(ctx):
     fired = sum(int(r.get("extra", {}).get("fired", 0)) for r in fam_res.values())
     distinct = sum(int(r.get("distinct", 0)) for r in fam_res.values())
     exits = sorted(set(x for r in fam_res.values() for x in r.get("extra", {}).get("exits", [])))
-    missing = check_exits(mc, exits)
+    aborted = sum(int(r.get("extra", {}).get("skipped_after_stuck", 0)) for r in fam_res.values())
+    if aborted and not ctx.violations:
+        raise MachineryError("%d runs were skipped after scenarios that could not finish, but no ledger was rejected" % aborted)
+    missing = check_exits(mc, exits) if not aborted else ["(not checked: %d runs skipped after stuck scenarios)" % aborted]
     samples = []
     for r in fam_res.values():
         samples += (r.get("samples") or [])[:2]
     log("C04: MC %d states; %d fault runs (%d fired, %d distinct tuples); ledgers %d accepted, %d rejected %s"
         % (mc["states"], evals, fired, distinct, acc, len(rej), classes))
-    if evals < (700 if not thorough else 2500) or fired < evals // 2:
+    if not aborted and (evals < (700 if not thorough else 2500) or fired < evals // 2):
         raise MachineryError("vacuous run: %d evaluations, %d fired" % (evals, fired))
     if len(hangs) * 100 > evals:
         raise MachineryError("%d of %d runs made no progress in real time: %s" % (len(hangs), evals, hangs[:3]))
@@ -226,13 +250,53 @@ def run(ctx):
     ]}
 
 
+_SEQ = [0]
+
+
+def only_arg(reset):
+    pj = json.dumps(reset.get("p") or {})
+    return "%s|%s" % (reset.get("cfg", ""), pj) if reset.get("family") == "upgrader" else pj
+
+
+def reproduce(ctx, cls, reset, fam, env, repeat=6):
+    """Execute the rejected case again (several times: most are races) and let TLC judge the new ledgers;
+    not reproduced = inconclusive = machinery failure, never a verdict."""
+    pkg, rx = fam
+    e = dict(env, VERIF_C04_ONLY=only_arg(reset), VERIF_C04_REPEAT=repeat)
+    try:
+        res = goenv.run_harness(ctx, pkg, rx, timeout=900, env=e)
+    except HarnessCrash as ex:
+        raise MachineryError("reproducing %s crashed the harness:\n%s" % (cls, (ex.log or "")[-1500:]))
+    traces = []
+    for p in res.get("traces") or []:
+        if os.path.exists(p):
+            for (tname, r2, evs) in tracecheck.load_ndjson(p):
+                if not r2.get("hang"):
+                    traces.append(("re-" + tname, dict(r2, trace="re-" + tname), evs))
+    if not traces:
+        raise MachineryError("reproducing %s recorded no ledger" % cls)
+    again = [v for v in validate_ledgers(ctx, traces) if not v.accepted]
+    same = other = 0
+    for v in again:
+        r2, evs = [(t[1], t[2]) for t in traces if t[0] == v.name][0]
+        c2 = class_key(r2, evs)[0]
+        if c2 == cls:
+            same += 1
+        elif findings.match(ctx.pid, c2) is None:
+            other += 1          # the same case fails again, with a different residue (races)
+    if not same and not other:
+        return None
+    return "rejected again in %d of %d repetitions (%d with the same class)" % (same + other, len(traces), same)
+
+
 def validate_ledgers(ctx, traces, batch=700):
     """TLC validates every ledger against C04_Obs in one pass per batch: the specification consumes all
     ledgers and records the rejected ones itself (variable `bad`, printed as VFBAD by the postcondition)."""
     verdicts = []
     for bi in range(0, len(traces), batch):
         chunk = traces[bi:bi + batch]
-        hw, violated, nlines, res = tracecheck._run_batch(ctx, "C04_Obs", "C04_Obs.cfg", chunk, "c04-%d" % bi, 900, True)
+        _SEQ[0] += 1
+        hw, violated, nlines, res = tracecheck._run_batch(ctx, "C04_Obs", "C04_Obs.cfg", chunk, "c04-%d" % _SEQ[0], 900, True)
         if violated or hw != nlines + 1:
             raise MachineryError("C04_Obs did not consume its batch (hw=%s of %d, %s):\n%s" % (hw, nlines, violated, res.out[-1500:]))
         bad = None
